@@ -15,7 +15,8 @@ INSIDE = ['x', 'a/x', 'a/d/x', 'd/x', 'ABS/x', 'a', 'a/d']
 
 
 def names_job(job):
-    case, threads, traced = job
+    case, threads, traced = job[:3]
+    dry = len(job) > 3 and job[3]
     sentinel = ws.mkws('c19')
     w = os.path.join(sentinel, 'l1', 'l2', 'ws')
     os.makedirs(w)
@@ -44,6 +45,16 @@ def names_job(job):
         ws.write(w, 'patches/p1.patch', patch)
         ws.write(w, 'patches/p2.patch', scen.render_fp({'kind': 'C', 'old': 'NULL', 'new': 'later', 'ren': False, 'hunks': [], 'to': [0], 'from': [], 'nmode': 'none'}))
         ws.write(w, 'series', b'p1.patch -p%d\np2.patch\n' % case['strip'])
+        if dry:
+            # C10 on these inputs: --dry-run writes nothing anywhere under the sentinel and predicts the real run
+            import p_cmd
+            args = ['-a', '-q', '--threads', threads]
+            before = ws.snapshot(sentinel, skip=(), meta=True)
+            probs, pre = p_cmd.dry_prelude(w, args)
+            if ws.snapshot(sentinel, skip=(), meta=True) != before and not any(c == 'dry-wrote' for c, _ in probs):
+                probs.append(('dry-wrote', '--dry-run changed something outside the working directory'))
+            rc, so, se = ws.push(w, args)
+            return probs + p_cmd.dry_compare(pre, rc, se)
         outside_before = {p: v_ for p, v_ in ws.snapshot(sentinel, skip=(), meta=True).items() if not p.startswith('l1/l2/ws/') and p != 'l1/l2/ws/'}
         inside_before = ws.snapshot(w)
         probs = []
